@@ -226,3 +226,51 @@ Proof.
     destruct (IH Hyr Hok) as [A B]. split; [constructor; auto|simpl; lia].
 Qed.
 End Sparse.
+
+(* ------------------------------------------------------------------ exact instance *)
+Section SparseExact.
+Open Scope Q_scope.
+
+Definition stochastic_csr (rows : list (list (Z * Q))) : Prop :=
+  forall row, In row rows ->
+    (forall p, In p (map snd row) -> 0 <= p) /\ qsum (map snd row) == 1 /\
+    Forall (fun t => (0 <= t < zlen rows)%Z) (map fst row).
+
+Lemma csr_ok_Q : forall rows, stochastic_csr rows -> csr_ok posQ rows.
+Proof.
+  intros rows Hs row Hrow. destruct (Hs row Hrow) as [Hnn [Hsum Htg]]. split; [|exact Htg].
+  apply (row_ok_Q (zlen (map snd row))).
+  - destruct (map snd row) eqn:E; [simpl in Hsum; lra|]. unfold zlen. simpl. lia.
+  - split; [reflexivity|]. split; assumption.
+Qed.
+
+Theorem path_sparse_exact : forall (rows : list (list (Z * Q))) x us,
+  stochastic_csr rows -> (0 <= x < zlen rows)%Z -> Forall unit_interval us ->
+  exists p, path_sparse (cdfs1d_of (zlen rows) (csr_data rows) (csr_indptr rows))
+                        (csr_indices rows) (csr_indptr rows) x us = Ok p /\
+            length p = S (length us) /\ Forall (fun s => (0 <= s < zlen rows)%Z) p /\
+            valid_sparse_path rows x us p.
+Proof.
+  intros rows x us Hs Hx Hus.
+  assert (Hu : Forall (unitv (T:=Q)) us).
+  { eapply Forall_impl; [|exact Hus]. intros u Hu. apply unitv_Q. exact Hu. }
+  destruct (path_sparse_valid posQ F1_Q F1z_Q F2_Q F2z_Q rows us x (csr_ok_Q rows Hs) Hx Hu) as [p [Ep Vp]].
+  exists p. split; [exact Ep|].
+  destruct (valid_sparse_path_range posQ rows x us p Vp Hx (csr_ok_Q rows Hs)) as [A B]. auto.
+Qed.
+
+(* exact reading of one sparse step: the stored position k has positive probability and
+   S_{k-1} <= u < S_k for the partial sums of the stored probabilities of the row *)
+Lemma sparse_step_exact : forall rows (row : list (Z * Q)) u k,
+  stochastic_csr rows -> In row rows -> unit_interval u -> step_post (map snd row) u k ->
+  (exists pk, nth_error (map snd row) (Z.to_nat k) = Some pk /\ 0 < pk) /\
+  qsum (firstn (Z.to_nat k) (map snd row)) <= u < qsum (firstn (S (Z.to_nat k)) (map snd row)).
+Proof.
+  intros rows row u k Hs Hrow Hu Hst. destruct (Hs row Hrow) as [Hnn [Hsum _]].
+  assert (Hn : (0 < zlen (map snd row))%Z).
+  { destruct (map snd row) eqn:E; [simpl in Hsum; lra|]. unfold zlen. simpl. lia. }
+  assert (Huu : unitv u) by (apply unitv_Q; exact Hu).
+  destruct (step_post_Q (zlen (map snd row)) (map snd row) u k Hn (conj eq_refl (conj Hnn Hsum)) Huu Hst) as [_ [A B]].
+  split; assumption.
+Qed.
+End SparseExact.
